@@ -681,6 +681,12 @@ class SStr:
     def is_concrete(self):
         return all(isinstance(c, int) for c in self.chars)
 
+    def __getitem__(self, idx):
+        if isinstance(idx, slice):
+            return mk_str(self.chars[idx], self.kind)
+        c = self.chars[idx]
+        return mk_str([c], "str") if self.kind == "str" else c
+
 
 class SBytes(SStr):
     """Bounded bytes object backed by a C array (so that PyBytes_AS_STRING can alias it)."""
